@@ -184,7 +184,10 @@ def drive(case, want_state=True):
     s.MaxIterations = case['cap']
     s.TraceStep = case.get('trace')
     if want_state:
-        res['state'] = parser_state(s)
+        try:
+            res['state'] = parser_state(s)
+        except Unsupported as e:
+            res['unsupported'] = str(e)
     try:
         s.SolveEquation()
     except Exception as e:  # noqa
@@ -192,11 +195,15 @@ def drive(case, want_state=True):
         res['raw_exc'] = type(e).__name__
         res['exc_is_value_error'] = isinstance(e, ValueError)
     res['ts_raw'] = {k: list(v) for k, v in s.TimeSeries.items()}
-    res['ts'] = snapshot_ts(s.TimeSeries)
-    tr = s.TimeSeriesStepTrace
-    if case.get('trace') is not None and 'iteration' in tr:
-        res['traced'] = [case['trace'], len(tr['iteration']), [fhex(v) for v in tr['iteration_error']]]
     res['solver'] = s
+    tr = s.TimeSeriesStepTrace
+    res['sweeps'] = len(tr['iteration']) if case.get('trace') is not None and 'iteration' in tr else None
+    try:
+        res['ts'] = snapshot_ts(s.TimeSeries)
+        if res['sweeps'] is not None:
+            res['traced'] = [case['trace'], res['sweeps'], [fhex(v) for v in tr['iteration_error']]]
+    except Unsupported as e:
+        res['unsupported'] = str(e)
     return res
 
 
@@ -576,7 +583,8 @@ def gen_reject(rng):
     elif what == 'intscalar':
         c['exo'].append([nm, rng.choice(['20', '0', '-3', 'None', 'abs'])])
     elif what == 'string':
-        c['exo'].append([nm, rng.choice(['"abc"', '{1.0: 2.0}', '()'])])
+        c['exo'].append([nm, rng.choice(['{1.0: 2.0}', '()', '[]'])])
+        c['maxtime'] = max(c['maxtime'], 1)
     elif what == 'none':
         c['exo'].append([nm, fl(2.0)])
     else:
@@ -653,11 +661,16 @@ def correspond(cases, stats, orig=False):
         if res['parse_error'] is not None:
             stats['parse_error'] = stats.get('parse_error', 0) + 1
             continue
+        if res.get('unsupported'):
+            stats['unsupported'] = stats.get('unsupported', 0) + 1
+            continue
         use = res
         fc = floatified(case)
         if block_text(fc) != block_text(case):
             try:
                 fres = drive(fc)
+                if fres.get('unsupported'):
+                    raise Unsupported(fres['unsupported'])
                 if public(fres) != public(res):
                     stats['int_arithmetic_differs'] = stats.get('int_arithmetic_differs', 0) + 1
                     use = fres
@@ -702,3 +715,82 @@ def classify(case, res, stats):
     st = res['state']
     if st and st['deco']:
         stats['with_decorative'] = stats.get('with_decorative', 0) + 1
+
+
+# ------------------------------------------------------------------------------------------------
+# helpers for the implementation-only oracles
+
+def math_env():
+    import math as _m
+    env = {k: getattr(_m, k) for k in dir(_m) if not k.startswith('_')}
+    return env
+
+
+def eval_text(txt, row):
+    """value of a right-hand side on a row of reported values (Python's own eval, math names available)"""
+    env = math_env()
+    env.update(row)
+    return eval(txt, {'__builtins__': __builtins__}, env)
+
+
+def same_number(a, b):
+    """bitwise-equal doubles (an int is compared by value)"""
+    try:
+        fa, fb = float(a), float(b)
+    except (TypeError, ValueError, OverflowError):
+        return False
+    if math.isnan(fa) or math.isnan(fb):
+        return math.isnan(fa) and math.isnan(fb)
+    return fa == fb and math.copysign(1.0, fa) == math.copysign(1.0, fb) if fa == 0.0 else fa == fb
+
+
+def supplied_exo(txt, T):
+    """what the user supplied for an exogenous variable, per period 0..T (None if not a usable spec)"""
+    try:
+        v = eval(txt, {'__builtins__': __builtins__}, math_env())
+    except Exception:  # noqa
+        return None
+    if type(v) is float:
+        return [v] * (T + 1)
+    try:
+        v = list(v)
+    except Exception:  # noqa
+        return None
+    if len(v) < T + 1:
+        return None
+    return v[:T + 1]
+
+
+def var_classes(solver):
+    P = solver.Parser
+    return {'endo': [v for v, _ in P.Endogenous], 'lagged': [(v, s) for v, s in P.Lagged],
+            'exo': [v for v, _ in P.Exogenous], 'deco': [v for v, _ in P.Decoration]}
+
+
+def undefined_names(case):
+    """names used on a right-hand side that no line defines (and that are not functions/constants)"""
+    defined = set([l for l, _ in case['eqs']] + [l for l, _ in case['lags']] + [n for n, _ in case['exo']] + ['k', 't'])
+    known = set(math_env()) | {'abs', 'max', 'min', 'float', 'sum', 'pow', 'round'}
+    out = set()
+    for _, rhs in case['eqs']:
+        try:
+            tree = ast.parse(rhs.strip(), mode='eval')
+        except SyntaxError:
+            continue
+        for n in ast.walk(tree):
+            if isinstance(n, ast.Name) and n.id not in defined and n.id not in known:
+                out.add(n.id)
+    return out
+
+
+def case_key(case):
+    c = {k: v for k, v in case.items() if k not in ('info', 'kind')}
+    return json.dumps(c, sort_keys=True)
+
+
+def write_corpus(pid, name, case, note=''):
+    import os
+    d = os.path.join(common.VERIF, 'corpus', pid)
+    os.makedirs(d, exist_ok=True)
+    with open(os.path.join(d, name + '.json'), 'w') as f:
+        json.dump({'note': note, 'replay': {'kind': 'solve', 'case': case}}, f, indent=1, sort_keys=True)
